@@ -34,6 +34,7 @@ type exhaustiveConfig struct {
 	Alphabet, Lists   int64
 	Depth             int
 	NonTrivialInLists int64
+	Reentrant         bool
 }
 
 func exhaustiveConfigs() []exhaustiveConfig {
@@ -50,6 +51,11 @@ func exhaustiveConfigs() []exhaustiveConfig {
 		// stale items (alphabet 9)
 		{Shape: ShapeExpirable, Cap: 1, Keys: 2, DepthQ: 4, DepthT: 6},
 		{Shape: ShapeExpirable, Cap: 2, Keys: 2, DepthQ: 4, DepthT: 6},
+		// re-entrant create functions: the alphabet additionally has, per key, GetOrCreate whose create function
+		// first calls GetOrCreate(ok|error) / Remove / GetOrCreate{GetOrCreate} on the other key(s)
+		{Shape: ShapeCache, Cap: 1, Keys: 2, DepthQ: 3, DepthT: 5, Reentrant: true},
+		{Shape: ShapeCache, Cap: 2, Keys: 3, DepthQ: 3, DepthT: 4, Reentrant: true},
+		{Shape: ShapeExpirable, Cap: 2, Keys: 3, DepthQ: 3, DepthT: 4, Reentrant: true},
 	}
 }
 
@@ -71,6 +77,9 @@ func TestC08Exhaustive(t *testing.T) {
 	for ci := range cfgs {
 		cfg := &cfgs[ci]
 		alpha := Alphabet(cfg.Shape, cfg.Keys)
+		if cfg.Reentrant {
+			alpha = append(alpha, ReentrantAlphabet(cfg.Keys)...)
+		}
 		cfg.Alphabet = int64(len(alpha))
 		cfg.Depth = vstat.Pick(cfg.DepthQ, cfg.DepthT)
 		ops := make([]Op, 0, cfg.Depth)
@@ -96,6 +105,33 @@ func TestC08Exhaustive(t *testing.T) {
 	st.SetExhaustive("lru_oplists", map[string]any{"cells": cfgs, "shards": shards, "shard": shard})
 }
 
+// genNested draws the program a create function runs on the cache (1-2 calls, GetOrCreate-heavy; the
+// executor resolves the keys so that no key in flight is touched).
+func genNested(t *rapid.T, shape string, nk, depth int) []Op {
+	n := rapid.IntRange(1, MaxNested).Draw(t, "nestedN")
+	prog := make([]Op, 0, n)
+	for i := 0; i < n; i++ {
+		op := Op{Key: rapid.IntRange(0, nk-1).Draw(t, "nestedKey")}
+		if shape == ShapeECache {
+			op.Var = rapid.IntRange(0, NVariants-1).Draw(t, "nestedVar")
+		}
+		switch kind := rapid.IntRange(0, 9).Draw(t, "nestedKind"); {
+		case kind < 7:
+			op.K = "g"
+			op.Fail = rapid.IntRange(0, 5).Draw(t, "nestedFail") == 0
+			if depth < MaxDepth && nk > 2 && rapid.IntRange(0, 3).Draw(t, "deeper") == 0 {
+				op.Nested = genNested(t, shape, nk, depth+1)
+			}
+		case kind < 9:
+			op.K = "r"
+		default:
+			op.K = "c"
+		}
+		prog = append(prog, op)
+	}
+	return prog
+}
+
 // genOps draws an op list for a configuration.
 func genOps(t *rapid.T, shape string, nk, maxLen int, heavy bool) []Op {
 	opGen := rapid.Custom(func(t *rapid.T) Op {
@@ -114,7 +150,11 @@ func genOps(t *rapid.T, shape string, nk, maxLen int, heavy bool) []Op {
 		}
 		switch {
 		case kind < gEnd:
-			return Op{K: "g", Key: key, Var: vr, Fail: rapid.IntRange(0, 5).Draw(t, "fail") == 0}
+			op := Op{K: "g", Key: key, Var: vr, Fail: rapid.IntRange(0, 5).Draw(t, "fail") == 0}
+			if nk > 1 && rapid.IntRange(0, 5).Draw(t, "reentrant") == 0 { // the create function uses the cache itself
+				op.Nested = genNested(t, shape, nk, 1)
+			}
+			return op
 		case kind < rEnd:
 			return Op{K: "r", Key: key, Var: vr}
 		case kind < cEnd:
